@@ -180,6 +180,11 @@ func (g *histGen) genRun() opSpec {
 
 func (g *histGen) genOp() opSpec {
 	r := g.rg.Intn(100)
+	if g.rg.Chance(1, 25) {
+		// a cache snapshot whose write fails (snapshots disabled on the compactor); the cache
+		// keeps the snapshot and a later snapshot retries it
+		return opSpec{Kind: "snapfail"}
+	}
 	if g.SnapHeavy {
 		switch {
 		case r < 38:
@@ -332,7 +337,19 @@ func readRanges(rg *vkit.Rand) []readRange {
 
 // checkAll compares every series × field × range × direction with the model; returns the
 // first difference and the number of comparisons made.
+// lastMismatch describes the most recent difference checkAll found (kind per sk.Model.Classify,
+// block locations of the key): known findings are matched on these features.
+var lastMismatch = map[string]string{}
+
+func mismatchFeatures(feats map[string]string) map[string]string {
+	for k, v := range lastMismatch {
+		feats[k] = v
+	}
+	return feats
+}
+
 func checkAll(s *sk.Shard, m *sk.Model, series []seriesDef, ranges []readRange) (diff string, reads int, nonEmpty int) {
+	lastMismatch = map[string]string{}
 	for _, sd := range series {
 		for _, f := range fieldsOf(sd.Name) {
 			for _, rr := range ranges {
@@ -347,7 +364,13 @@ func checkAll(s *sk.Shard, m *sk.Model, series []seriesDef, ranges []readRange) 
 						nonEmpty++
 					}
 					if d := sk.Diff(want, got); d != "" {
-						return fmt.Sprintf("read series=%q field=%s range=[%d,%d] asc=%v: %s", sd.Key, f, rr.Lo, rr.Hi, asc, d), reads, nonEmpty
+						loc := s.KeyLocations(sd.Key, f)
+						lastMismatch["kind"] = m.Classify(sd.Key, f, want, got)
+						lastMismatch["key_locations"] = "le12"
+						if loc > 12 {
+							lastMismatch["key_locations"] = "gt12"
+						}
+						return fmt.Sprintf("read series=%q field=%s range=[%d,%d] asc=%v (%s, %d block locations): %s", sd.Key, f, rr.Lo, rr.Hi, asc, lastMismatch["kind"], loc, d), reads, nonEmpty
 					}
 				}
 			}
